@@ -372,3 +372,110 @@ func whatReflectCopyCopiedIsLookedAt(c *core.Ctx) {
 	c.Pass("object|reflect.Copy-sites", "", sprintf("%d reflect.Copy call sites in package object", n))
 	c.Stat("reflect_copy_sites", n)
 }
+
+// ---------------------------------------------------------------------------
+// anEntryHasAKeyAndAValueOfItsOwn (C01, C16): the entry an iterator hands out
+// pairs where the iteration is (the position, or the key) with what is there.
+// An entry whose key and value are one and the same field of the iterator
+// gives `for i, v := range x` the value for an index.
+func anEntryHasAKeyAndAValueOfItsOwn(c *core.Ctx) {
+	p := c.P
+	n := 0
+	for _, fn := range repoFns(p, "object") {
+		if fn.Name() != "Entry" || fn.Signature.Recv() == nil {
+			continue
+		}
+		k := 0
+		for _, b := range fn.Blocks {
+			for _, in := range b.Instrs {
+				call, ok := in.(*ssa.Call)
+				if !ok {
+					continue
+				}
+				cal := call.Call.StaticCallee()
+				if cal == nil || cal.Name() != "NewEntry" || len(call.Call.Args) != 2 {
+					continue
+				}
+				n++
+				k++
+				same := func(a, b ssa.Value) bool {
+					if mi, ok := a.(*ssa.MakeInterface); ok {
+						a = mi.X
+					}
+					if mi, ok := b.(*ssa.MakeInterface); ok {
+						b = mi.X
+					}
+					if a == b {
+						return true
+					}
+					ua, ok1 := a.(*ssa.UnOp)
+					ub, ok2 := b.(*ssa.UnOp)
+					if !ok1 || !ok2 {
+						return false
+					}
+					fa, ok1 := ua.X.(*ssa.FieldAddr)
+					fb, ok2 := ub.X.(*ssa.FieldAddr)
+					return ok1 && ok2 && fa.X == fb.X && fa.Field == fb.Field
+				}(call.Call.Args[0], call.Call.Args[1])
+				c.Check(!same, core.SSAName(fn)+"|NewEntry|key-and-value-are-two-things|"+itoa(k), p.Pos(call.Pos()),
+					core.SSAName(fn)+" makes its entry"+ife(!same, " from a key (or position) and a value", " with one and the same thing for key and value: a loop that binds the index gets the value"))
+			}
+		}
+	}
+	if n < 4 {
+		core.Undecidedf("only %d entries are made by iterators", n)
+	}
+	c.Stat("iterator_entries", n)
+}
+
+// ---------------------------------------------------------------------------
+// pathsReachTheOSAsTheScriptGaveThem (C13, C12): the string that a builtin of
+// the os module hands to the OS is the string the script gave.  A builtin that
+// edits it first (trims, lower-cases, replaces) resolves another path than the
+// one the script named: " /b/x" relative to /a is a name below /a; trimmed, it
+// is the absolute path /b/x of another mount.
+func pathsReachTheOSAsTheScriptGaveThem(c *core.Ctx) {
+	p := c.P
+	n := 0
+	for _, fn := range repoFns(p, "modules/os", "builtins") {
+		k := 0
+		for _, b := range fn.Blocks {
+			for _, in := range b.Instrs {
+				ci, ok := in.(ssa.CallInstruction)
+				if !ok || !ci.Common().IsInvoke() {
+					continue
+				}
+				cm := ci.Common()
+				rt := core.NamedOf(cm.Value.Type())
+				if rt == nil || rt.Obj().Name() != "OS" || rt.Obj().Pkg() == nil || rt.Obj().Pkg().Path() != pkgPath("os") {
+					continue
+				}
+				for _, a := range cm.Args {
+					if !core.IsStringType(a.Type()) {
+						continue
+					}
+					n++
+					k++
+					edited := ""
+					core.DependsOn(a, func(w ssa.Value) bool {
+						call, ok := w.(*ssa.Call)
+						if !ok {
+							return false
+						}
+						cal := call.Call.StaticCallee()
+						if cal != nil && cal.Pkg != nil && cal.Pkg.Pkg.Path() == "strings" && core.IsStringType(call.Type()) {
+							edited = "strings." + cal.Name() + " at " + p.Pos(call.Pos())
+						}
+						return false
+					})
+					c.Check(edited == "", core.SSAName(fn)+"|"+cm.Method.Name()+"|string-as-the-script-gave-it|"+itoa(k), p.Pos(in.Pos()),
+						core.SSAName(fn)+" hands "+cm.Method.Name()+" of the OS a string"+ife(edited == "", " that no function of package strings has edited", " that was edited by "+edited+": the OS resolves another name than the one the script gave (a name that begins with a blank is a relative name; trimmed, it may be an absolute one, in another mount)"))
+				}
+			}
+		}
+	}
+	if n < 10 {
+		core.Undecidedf("only %d strings handed to the OS by the os module and the builtins", n)
+	}
+	c.Stat("strings_handed_to_the_os", n)
+}
